@@ -20,12 +20,15 @@ def run(chk, tier):
         facts = schemas.schema_facts(ss[name], std=std, asserts=True)
         lib = libsum.Lib(facts, "%s %s asserts" % (name, std))
         a, b, c = rchk.check(chk, lib, root, per_shape=per)
+        import spec_group
+        chk.extra["ctor_rows"] = chk.extra.get("ctor_rows", 0) + spec_group.check_ctors(chk, lib)
         tot[0] += a
         tot[1] += b
         tot[2] += c
     cfgfacts.check_assert_config(chk)
     chk.floor("R-CHK", chk.rule_counts.get("R-CHK", 0), 1500)
     chk.floor("R-CHK.step", chk.rule_counts.get("R-CHK.step", 0), 2)
+    chk.floor("BASE.ctor", chk.rule_counts.get("BASE.ctor", 0), 2)
     chk.floor("R-CHK.ref", chk.rule_counts.get("R-CHK.ref", 0), 8)
     chk.extra["functions_analysed"] = tot[0]
     chk.extra["functions_skipped_budget_or_visit"] = tot[2]
